@@ -77,6 +77,9 @@ func (e *Engine) sortedSpecKeys() []string {
 	for k := range e.specs {
 		ks = append(ks, k)
 	}
+	for _, lm := range e.lemmas {
+		ks = append(ks, lm.Pkg+".lemma "+lm.Name)
+	}
 	sort.Strings(ks)
 	return ks
 }
@@ -87,7 +90,7 @@ func (e *Engine) generate(keys []string) ([]*Obligation, []string, []string) {
 	var notes, unsup []string
 	for _, k := range keys {
 		spec := e.specs[k]
-		if strings.Contains(k, ".type ") {
+		if strings.Contains(k, ".type ") || strings.Contains(k, ".lemma ") {
 			continue
 		}
 		f := e.funcs[k]
@@ -105,6 +108,20 @@ func (e *Engine) generate(keys []string) ([]*Obligation, []string, []string) {
 		obls = append(obls, coll.obls...)
 		notes = append(notes, coll.notes...)
 		unsup = append(unsup, coll.unsupported...)
+	}
+	// lemmas (standalone facts about spec functions, e.g. single-valuedness of a postcondition)
+	for _, lm := range e.lemmas {
+		key := lm.Pkg + ".lemma " + lm.Name
+		want := false
+		for _, k := range keys {
+			if k == key {
+				want = true
+			}
+		}
+		if !want {
+			continue
+		}
+		obls = append(obls, e.verifyLemma(lm)...)
 	}
 	// stable ids
 	count := map[string]int{}
@@ -306,6 +323,14 @@ func cmdCheck(args []string) int {
 	}
 	var keys []string
 	for _, k := range e.sortedSpecKeys() {
+		if strings.Contains(k, ".lemma ") {
+			for _, lm := range e.lemmas {
+				if lm.Pkg+".lemma "+lm.Name == k && hasProp(lm.Props, *prop) {
+					keys = append(keys, k)
+				}
+			}
+			continue
+		}
 		if specMentions(e.specs[k], *prop) || *prop == "C19" {
 			keys = append(keys, k)
 		}
@@ -389,7 +414,7 @@ func cmdCheck(args []string) int {
 		assumptions = append(assumptions, a)
 	}
 	for _, k := range keys {
-		if e.specs[k].Trusted {
+		if sp := e.specs[k]; sp != nil && sp.Trusted {
 			assumptions = append(assumptions, "TRUSTED CONTRACT (assumed, body not verified): "+k)
 		}
 	}
